@@ -308,6 +308,11 @@ func handleHRANDFIELD(params internal.HandlerFuncParams) ([]byte, error) {
 		return nil, fmt.Errorf("value at %s is not a hash", key)
 	}
 
+	// An empty hash has no field to pick
+	if len(hash) == 0 {
+		return []byte("*0\r\n"), nil
+	}
+
 	// If count is the >= hash length, then return the entire hash
 	if count >= len(hash) {
 		res := fmt.Sprintf("*%d\r\n", len(hash))
